@@ -339,6 +339,11 @@ class Ctx(object):
         return self.regen_obligations('tools.regen.purity_ast', 'Gen_purity.v', 'Pur_%s.v' % self.prop, 'Pur_diag.v',
                                       'pur_')
 
+    def shape_obligations(self):
+        """Axis arithmetic of the relabeling methods as total functions (tools/regen/shape_ast.py) + coq/obl/Shp_<prop>.v"""
+        return self.regen_obligations('tools.regen.shape_ast', 'Gen_shape.v', 'Shp_%s.v' % self.prop, 'Shp_diag.v',
+                                      'shp_')
+
     def regen_obligations(self, module, genfile, oblfile, diagfile, prefix):
         """Regenerate a table from the CURRENT source with a fail-closed AST analysis and re-prove this
         property's obligation file on it.  A failure is recorded as a broken tie whose detail names what
